@@ -103,6 +103,8 @@ func genCase(engine, mode, tier string, r *Rng, id string, i int) []string {
 		return []string{genPlot(r).Line(id, "PLOT")}
 	case "grp":
 		return []string{genGrp(r, tier).Line(id, "GRP")}
+	case "misc":
+		return []string{genMisc(r).Line(id, "MISC")}
 	}
 	fmt.Fprintln(os.Stderr, "unknown engine", engine)
 	os.Exit(2)
